@@ -23,7 +23,8 @@ RULE = ("a case is one operation history on a real Config (ops {get,set,del by i
 TRUSTED = ["Lean 4.33 kernel", "axioms propext/Classical.choice/Quot.sound only",
            "harness/cfglib.py + harness/props/c06.py (correspondence, canonicalisation, dict oracle)",
            "CPython dict semantics (the oracle IS a Python dict)",
-           "model Invoke/Model/Config.lean hand-written, tied by correspondence on every run"]
+           "models Invoke/Model/Config.lean (pure) and Invoke/Model/ConfigCache.lean (cache objects + handles) hand-written, "
+           "both tied by correspondence on every run (root histories / handle histories incl. stale handles)"]
 ASSUMPTIONS = ["values are type-consistent (a key path is a section in every level and every write, or a leaf in all of them)",
                "each MODELLED operation goes through a proxy navigated from the root for that operation; proxy handles kept "
                "across other operations are exercised oracle-only (bursts; handle histories): what a stale handle READS is not "
@@ -101,7 +102,7 @@ def gen_env(rng, t):
 
 
 def gen_history(rng, maxlen=40, risky=0.03, files=False, clone_p=0.03, into_p=0.0, coll_p=0.0, max_objs=3,
-                classes=None, reload_p=0.17, levels=False, focus=0.0):
+                classes=None, reload_p=0.17, levels=False, focus=0.0, dictwrites=True):
     """random history guided by a reference simulation (independent of the implementation)"""
     ops = [{"o": 0, "op": "NEW", "defaults": tree(rng), "overrides": tree(rng, dens=0.3)}]
     if files:
@@ -181,7 +182,7 @@ def gen_history(rng, maxlen=40, risky=0.03, files=False, clone_p=0.03, into_p=0.
             op["k"] = k
             if r < 0.55:  # writes
                 if SHAPE[full] == "sec":
-                    if not (in_mods_only(full) or rng.random() < risky):
+                    if not dictwrites or not (in_mods_only(full) or rng.random() < risky):
                         continue
                     v = tree(rng, full, lower=False, dens=0.5)
                 else:
@@ -203,7 +204,7 @@ def gen_history(rng, maxlen=40, risky=0.03, files=False, clone_p=0.03, into_p=0.
                     for kk in rng.sample(cand, rng.randint(1, len(cand))):
                         f2 = path + (kk,)
                         if SHAPE[f2] == "sec":
-                            if not (in_mods_only(f2) or rng.random() < risky):
+                            if not dictwrites or not (in_mods_only(f2) or rng.random() < risky):
                                 continue
                             vv = tree(rng, f2, lower=False, dens=0.5)
                         else:
@@ -290,8 +291,10 @@ def gen_handle_history(rng, maxlen=24, files=False, clone_p=0.1, levels="nofiles
     """a random history (edits from the root, reloads - also unmerged ones -, clones) into which proxy HANDLES are
     woven: obtained at some point (`HOLD`, depth 1-2), kept across the later operations, used for every kind of edit
     and read (`HOP`) - also after the view has been re-merged, after reloads, on clones"""
+    # (no dict-valued writes here: a written dict is stored BY REFERENCE in the modifications and, until the next
+    # re-merge, in the cache object - a stale handle would alias it; the cached model copies values)
     base = gen_history(rng, maxlen=maxlen, risky=0.02, files=files, clone_p=clone_p, max_objs=3, reload_p=0.2, levels=levels,
-                       focus=0.6)
+                       focus=0.6, dictwrites=False)
     out, refs, handles = [], [], []
 
     def weave():
@@ -644,14 +647,21 @@ def run(ctx):
         why = run_held(c)
         if why:
             out.fail(c, why)
-    # handles kept across other operations: oracle only (edits through a live handle are effective at the root, clones agree)
+    # handles kept across other operations: the dict-likeness oracle (known finding for stale handles) AND correspondence
+    # with the CACHED Lean model, which predicts exactly what a stale handle reads and does
+    hlines, hrows, hcases = [], [], []
     for _ in range(ctx.n(300, 12000)):
         ops = gen_handle_history(rng)
         c = {"kind": "handle", "ops": ops}
         out.case(c, any(o["op"] == "HOP" for o in ops))
         out.hist["handle_histories"] += 1
         out.hist["handle_ops"] += sum(1 for o in ops if o["op"] == "HOP")
-        why = cfglib.judge_handles(copy.deepcopy(ops))
+        rows = []
+        run = copy.deepcopy(ops)
+        why = cfglib.judge_handles(run, rows=rows)
+        hlines.append(cfglib.line_cache(run[:len(rows)]))
+        hrows.append("|".join(rows))
+        hcases.append({"kind": "handle", "ops": run[:len(rows)]})
         if why and why.endswith(cfglib.STALE_TAG):
             # known finding C06-stale-held-handle: sampled (run.py re-checks each one against known_findings.json)
             out.hist["oracle_C06-stale-held-handle"] += 1
@@ -659,6 +669,15 @@ def run(ctx):
                 out.fail(c, why)
         elif why:
             out.fail(c, why)
+    if ctx.model_ok and hlines:
+        for case, m, i in zip(hcases, drv.run(hlines), hrows):
+            out.traces += 1
+            out.hist["handle_histories_vs_cached_model"] += 1
+            if m != i:
+                ms, is_ = m.split("|"), i.split("|")
+                k = next((j for j in range(min(len(ms), len(is_))) if ms[j] != is_[j]), min(len(ms), len(is_)))
+                out.disagree({"kind": "handle", "ops": case["ops"][:k + 1]}, is_[k] if k < len(is_) else None,
+                             ms[k] if k < len(ms) else None)
     out.extra["table_obligations"] = 0
     nh = max(1, sum(v for k, v in out.hist.items() if k.startswith("hist_") and k != "hist_with_reload_and_mutation"))
     out.extra["share_of_histories_within_partial_hypothesis"] = round(
@@ -674,7 +693,11 @@ LEVEL_TEXT = ("Lean 4 proofs about the Config bookkeeping model (view = oblitera
               "plain nested dict 'current merge + the same edits'; side condition: dict-valued writes go to keys that are "
               "sections in no lower level - findings #17/#18 have counterexample theorems), no_internal_error and "
               "navigated_write_succeeds (type consistency is an invariant; merge, obliterate, excise never raise), outputs_agree "
-              "(navigation errors and values read, section-valued included, agree with the dict); the model "
+              "(navigation errors and values read, section-valued included, agree with the dict); for HELD PROXY HANDLES a cached "
+              "model (merge() rebuilds the view as fresh dict objects; a handle is a captured address + key path): "
+              "cache_view_eq_pure_view_partial / cache_roundtrip (abstraction: the cache after a merge reads as Cfg.view), "
+              "fresh_handle_is_dict_like, edit_through_handle_reaches_root (stale or not), stale_handle_counterexample "
+              "(known finding C06-stale-held-handle); the models "
               "is tied to invoke.config on every run by a differential correspondence check over exhaustive short and random "
               "long operation histories, and a plain nested Python dict driven by the same operations is the always-on oracle")
 TECHNIQUE = ("Lean 4 theorems over all histories (simulation by path-function semantics, base-independent step lemmas) + "
